@@ -48,7 +48,7 @@ CHECKS["C09"] = dict(
     text=("Theorems over the model of build_decay_chains on decay tables: for acyclic tables (rank function) the build "
           "returns with fuel rank+2, its result satisfies the inductive specification `unfolds` (one entry per line in order "
           "with bf/model/parameters; daughter bare iff in S or without table, else the chain for that daughter with the same S), "
-          "the specification determines the chain uniquely; not-found error iff no table. Unbounded in tables, depth, S. "
+          "the specification determines the chain uniquely; not-found error iff no table. Unbounded in tables, depth, S. From the text: C09_text_level. "
           "Tie: generated acyclic table sets rendered to .dec text, read by the implementation AND by the model (Dec/Pipeline.v: front end, "
           "parse(), build — the same text, nothing pre-computed in Python), all/random stable subsets."),
     design="DESIGN.md §5 C09",
@@ -57,7 +57,9 @@ CHECKS["C10"] = dict(
     text=("Theorems over the model of _expand_decay_modes on chain dictionaries: the descriptor list is, in order, the rendering "
           "of the enumeration `paths`; a tree is enumerated iff it is a complete decay path (`vpath`: one line per decaying "
           "particle, daughters without lines stable); no path twice; length = sum over lines of products of daughters' counts. "
-          "Unbounded in shape. Tie: generated acyclic tables with aliases and empty blocks through "
+          "Unbounded in shape. WHOLE PIPELINE (C10_text_level over Dec/Pipeline.v): for any spelling of any layout of a file whose tables are acyclic, "
+          "the list returned for a mother is the rendering of the complete decay paths through the unfolding of the file's tables. "
+          "Tie: generated acyclic tables with aliases and empty blocks through "
           "DecFileParser.expand_decay_modes vs the model reading the SAME TEXT (Dec/Pipeline.v: front end, parse() incl. CDecay, build, expand); "
           "also on a parser object that was first parsed without the charge-conjugate decays, queried, and parsed again."),
     design="DESIGN.md §5 C10",
